@@ -92,6 +92,13 @@ func StringEscape(a String, ascii bool) string {
 	return out.String()
 }
 
+// isSpace reports whether c is whitespace for str.split() and
+// str.strip(): Unicode White_Space plus the information separators
+// U+001C..U+001F, which Python counts as whitespace too
+func isSpace(c rune) bool {
+	return unicode.IsSpace(c) || (0x1c <= c && c <= 0x1f)
+}
+
 // standard golang strings.Fields doesn't have a 'first N' argument
 func fieldsN(s string, n int) []string {
 	out := []string{}
@@ -99,7 +106,7 @@ func fieldsN(s string, n int) []string {
 	for _, c := range s {
 		//until we have covered the first N elements, multiple white-spaces are 'merged'
 		if n < 0 || len(out) < n {
-			if unicode.IsSpace(c) {
+			if isSpace(c) {
 				if len(cur) > 0 {
 					out = append(out, string(cur))
 					cur = []rune{}
@@ -109,7 +116,7 @@ func fieldsN(s string, n int) []string {
 			}
 			//until we see the next letter, after collecting the first N fields, continue to merge whitespaces
 		} else if len(out) == n && len(cur) == 0 {
-			if !unicode.IsSpace(c) {
+			if !isSpace(c) {
 				cur = append(cur, c)
 			}
 			//now that enough words have been collected, just copy into the last element
@@ -804,7 +811,7 @@ func stripFunc(args Tuple) (func(rune) bool, error) {
 	if err != nil {
 		return nil, err
 	}
-	f := unicode.IsSpace
+	f := isSpace
 	switch v := pyval.(type) {
 	case String:
 		chars := []rune(string(v))
